@@ -22,7 +22,12 @@ T == ndJsonDeserialize(IOEnv.TRACE)
 
 ProjV(r) == IF r.live THEN LiveV(r.elems) ELSE DeadV
 ProjB(r) == IF r.live THEN LiveB(r.read, r.wsize) ELSE DeadB
-Logged(ev) == [vs |-> [i \in 1..NV |-> ProjV(ev.vs[i])], bs |-> [i \in 1..NB |-> ProjB(ev.bs[i])]]
+(* a dynamic_array's cells are uninitialised until the harness fills them: contents are only
+   compared once filled (the ghost flag follows the specification, not the log) *)
+ProjD(r, exp) == IF r.live THEN [live |-> TRUE, size |-> r.size, cells |-> IF exp.filled THEN r.cells ELSE <<>>, filled |-> exp.filled]
+                 ELSE DeadD
+Logged(ev) == [vs |-> [i \in 1..NV |-> ProjV(ev.vs[i])], bs |-> [i \in 1..NB |-> ProjB(ev.bs[i])],
+               da |-> ProjD(ev.da, Eff(st, ev).da)]
 
 (* heap: function from live block id to its allocation size *)
 RECURSIVE HeapFold(_, _, _)
@@ -53,8 +58,10 @@ BufObsOK(r) ==
 HeapReasons(h, ev) ==
   LET lv == {i \in 1..NV : ev.vs[i].live}
       lb == {i \in 1..NB : ev.bs[i].live}
-      owners == {ev.vs[i].blk : i \in lv} \cup {ev.bs[i].blk : i \in lb}
+      dblk == IF ev.da.live THEN {ev.da.blk} ELSE {}
+      owners == {ev.vs[i].blk : i \in lv} \cup {ev.bs[i].blk : i \in lb} \cup dblk
       nOwn == Cardinality({i \in lv : ev.vs[i].blk # 0}) + Cardinality({i \in lb : ev.bs[i].blk # 0})
+              + Cardinality(dblk \ {0})
   IN  (IF \A i \in lv : ev.vs[i].cap >= ev.vs[i].size THEN {} ELSE {"capacity-below-size"})
       \cup (IF \A i \in lv : LET r == ev.vs[i] IN
                  IF r.blk = 0 THEN r.cap = 0
@@ -64,6 +71,8 @@ HeapReasons(h, ev) ==
                  IF r.blk = 0 THEN r.rsize = 0 /\ r.wsize = 0
                  ELSE r.blk \in DOMAIN h /\ r.off = 0 /\ r.rsize + r.wsize <= h[r.blk]
             THEN {} ELSE {"heap:buffer-block-mismatch"})
+      \cup (IF ev.da.live => (ev.da.blk \in DOMAIN h /\ ev.da.off = 0 /\ h[ev.da.blk] = ev.da.size /\ ev.da.dist = ev.da.size)
+            THEN {} ELSE {"heap:dynamic-array-block-mismatch"})
       \cup (IF Cardinality(owners \ {0}) = nOwn THEN {} ELSE {"heap:block-shared"})
       \cup (IF DOMAIN h \subseteq owners THEN {} ELSE {"heap:orphaned-block"})
 
@@ -73,6 +82,7 @@ Reasons(s, h, ev) ==
       hf == HeapFold(h, ev.heap, {})
   IN  (IF \A i \in 1..NV : <<"v", i>> \in e.free \/ lg.vs[i] = e.vs[i] THEN {} ELSE {"contents"})
       \cup (IF \A i \in 1..NB : <<"b", i>> \in e.free \/ lg.bs[i] = e.bs[i] THEN {} ELSE {"buffer-contents"})
+      \cup (IF lg.da = e.da THEN {} ELSE {"dynamic-array"})
       \cup (IF \A i \in 1..NV : <<"v", i>> \in e.free => lg.vs[i].live THEN {} ELSE {"moved-from-not-live"})
       \cup (IF ev.ret = e.ret THEN {} ELSE {"returned-iterator"})
       \cup (IF ev.rb = e.rb THEN {} ELSE {"returned-bool"})
@@ -82,7 +92,7 @@ Reasons(s, h, ev) ==
       \cup HeapReasons(hf.h, ev)
 
 EmptyHeap == [i \in {} |-> 0]
-EmptySt == [vs |-> [i \in 1..NV |-> DeadV], bs |-> [i \in 1..NB |-> DeadB]]
+EmptySt == [vs |-> [i \in 1..NV |-> DeadV], bs |-> [i \in 1..NB |-> DeadB], da |-> DeadD]
 
 TInit ==
   /\ st = EmptySt
